@@ -80,7 +80,7 @@ end
 
 def showJson (v : J) : String := "|".intercalate (showJ v)
 
-def parseAdapter (s : String) : Option Adapter :=
+def parseAdapter (st : St) (s : String) : Option Adapter :=
   match s.splitOn "/" with
   | ["p", p] => (parseCps p).map .pfx
   | ["b", l, p] => do some (mkBasic b64enc (← parseCps l) (← parseCps p))
@@ -90,6 +90,8 @@ def parseAdapter (s : String) : Option Adapter :=
   | ["X", t] => (parseCps t).map .trace      -- the same adapter, rebinding `req_args.headers` to a new dict first
   | ["q", k, v] => do some (.addParam (← parseCps k) (← parseCps v))
   | ["w", k] => (parseCps k).map .wrapData
+  | ["N", c, mode, side, id] =>     -- an adapter that sends `target.get("/nested")` itself
+    do some (.nested (← c.toNat?.bind (find st.conns)) (mode = "f") (side = "q") (← id.toNat?))
   | ["u", k] => (parseCps k).map .unwrap
   | ["k"] => some .count
   | ["f"] => some .compact
@@ -98,8 +100,8 @@ def parseAdapter (s : String) : Option Adapter :=
   | ["e", "r"] => some (.boom false)
   | _ => none
 
-def parseAdapters (s : String) : Option (List Adapter) :=
-  if s = "-" then some [] else (s.splitOn ";").mapM parseAdapter
+def parseAdapters (st : St) (s : String) : Option (List Adapter) :=
+  if s = "-" then some [] else (s.splitOn ";").mapM (parseAdapter st)
 
 def parsePairs (s : String) : Option UDict :=
   if s = "-" then some [] else
@@ -153,7 +155,7 @@ def parseTarget (st : St) (s : String) : Option Target :=
 def parseOwn (st : St) (s : String) : Option Own :=
   match s.splitOn "=" with
   | ["n"] => some .none
-  | ["o", a] => (parseAdapter a).map .one
+  | ["o", a] => (parseAdapter st a).map .one
   | ["l", n] => do some (.list (← find st.lists (← n.toNat?)))
   | _ => none
 
@@ -224,9 +226,9 @@ def canonUrl : Str → Str
   | c :: r => c :: canonUrl r
   | [] => []
 
-def showSent (s : Sent) (same : Bool) : String :=
+def showSent (s : Sent) (same : Bool) (sent : Nat) : String :=
   match s.resp with
-  | .error e => "err " ++ e.name ++ " n=1" ++ (if same then "" else " same=0")
+  | .error e => "err " ++ e.name ++ " n=" ++ toString sent ++ (if same then "" else " same=0")
   | .ok rv =>
   -- the request-id header is left out here: presence, value and number are answered by `lastid`
   let hs := ((sortDict s.headers).filter fun kv => lower kv.1 != Gen.C17.idHeaderLower).map
@@ -235,6 +237,7 @@ def showSent (s : Sent) (same : Bool) : String :=
     ++ " h=" ++ (if hs.isEmpty then "-" else ";".intercalate hs)
     ++ " d=" ++ (match s.body with | none => "n" | some b => showNatList b)
     ++ " r=" ++ showJson rv
+    ++ " nested=" ++ (if s.nested.isEmpty then "-" else ";".intercalate (s.nested.map fun u => showCps (canonUrl u)))
     ++ " same=" ++ (if same then "1" else "0")
 
 def showIdInfo (s : Sent) : String :=
@@ -248,20 +251,20 @@ def userSnapshot (H : Heap) (upto : Heap) : List (Option Dict) × List (Option (
   (upto.userDicts.map (H.dicts[·]?), upto.userLists.map (H.lists[·]?), H.datas.take upto.datas.length)
 
 def exec (st : St) (op : Op) (bind : St → Nat → St) : St × String :=
-  let (H', r) := step st.heap op
+  let (H', r) := step { st.heap with lastSent := 0 } op
   let same := userSnapshot H' st.heap = userSnapshot st.heap st.heap
   let st' := { st with heap := H' }
   match r with
   | .ok .unit => (st', "ok")
   | .ok (.ref n) => (bind st' n, "ok")
-  | .ok (.sent s) => ({ st' with lastId := showIdInfo s }, showSent s same)
+  | .ok (.sent s) => ({ st' with lastId := showIdInfo s }, showSent s same H'.lastSent)
   | .error e =>
     let st' := match op with
       | .request .. | .call .. => { st' with lastId := "none" }
       | _ => st'
 
     let sent := match op with
-      | .request .. | .call .. => " n=0"
+      | .request .. | .call .. => " n=" ++ toString H'.lastSent
       | _ => ""
     (st', "err " ++ e.name ++ sent ++ (if same then "" else " same=0"))
 
@@ -274,11 +277,11 @@ def handle (st : St) (line : String) : St × String :=
   | ["lastid"] => (st, st.lastId)
   | ["debuglog"] => (st, "ok")     -- the logger of ak.conn_http at DEBUG: nothing that is sent may change
   | ["list", name, as] =>
-    match name.toNat?, parseAdapters as with
+    match name.toNat?, parseAdapters st as with
     | some nm, some l => exec st (.newList l) fun s n => { s with lists := (nm, n) :: s.lists }
     | _, _ => bad
   | ["lappend", name, a] =>
-    match name.toNat?.bind (find st.lists), parseAdapter a with
+    match name.toNat?.bind (find st.lists), parseAdapter st a with
     | some l, some ad => exec st (.listAppend l ad) noBind
     | _, _ => bad
   | ["dict", name, kvs] =>
@@ -290,7 +293,7 @@ def handle (st : St) (line : String) : St × String :=
     | some nm, some t, some o => exec st (.mk t o (cls = "H")) fun s n => { s with conns := (nm, n) :: s.conns }
     | _, _, _ => bad
   | ["add", name, a] =>
-    match name.toNat?.bind (find st.conns), parseAdapter a with
+    match name.toNat?.bind (find st.conns), parseAdapter st a with
     | some c, some ad => exec st (.add c ad) noBind
     | _, _ => bad
   | ["data", name, v] =>
